@@ -9,7 +9,7 @@
 From Coq Require Import List Bool Arith PeanoNat Permutation.
 From Knut Require Import Model.Pipe Model.PipeLoader Spec.PipeSpec.
 From Knut Require Import Proofs.PipeInv Proofs.PipeProofs Proofs.PipeLive Proofs.PipeTrace
-                         Proofs.PipeLoaderProofs.
+                         Proofs.PipeExact Proofs.PipeLoaderProofs.
 Import ListNotations.
 
 (* Ownership.  In every reachable state: of two nodes (source 0, stages 1..n, sink n+1) holding
@@ -179,9 +179,36 @@ Theorem trace_ok_complete : forall n m fails sched,
 Proof. exact trace_ok_complete_run. Qed.
 Print Assumptions trace_ok_complete.
 
-(* trace_ok_exact_partial.  Not proved: that every trace accepted by trace_ok is the trace of some
-   run for some oracle (the converse of trace_ok_complete):
-     forall n tr, trace_ok n tr = true -> exists m fails sched, trace (run n m fails sched init) = tr. *)
+(* Exactness (the converse of trace_ok_complete).  Every event list accepted by the checker is the
+   trace of a run of the transition system from its initial state, for some number of items and
+   some failure oracle (the proof uses length tr items and the oracle that never fails; the
+   schedule uses only Fetch, Hand, Begin, End - nothing is cancelled or closed). *)
+Theorem C19_trace_ok_exact : forall n tr, trace_ok n tr = true ->
+  exists m fails sched, trace (run n m fails sched init) = tr.
+Proof. exact trace_ok_exact. Qed.
+Print Assumptions C19_trace_ok_exact.
+
+(* Exactness per instance.  For n stages, items 0..m-1 and failure oracle [fails], the traces of
+   the runs are exactly the accepted event lists that fit the instance (Spec/PipeSpec.v
+   [respects]: items below m; a begin of item k at stage i only if f_(i-1)(t_k) succeeded and
+   f_(i+j)(t_(k-1-j)) succeeded for all j >= 0 with i+j <= n - a stage that failed neither hands
+   its item on nor receives again). *)
+Theorem C19_trace_exact : forall n m fails tr,
+  (exists sched, trace (run n m fails sched init) = tr) <->
+  (trace_ok n tr = true /\ respects n m fails tr).
+Proof. exact trace_exact. Qed.
+Print Assumptions C19_trace_exact.
+
+(* The checker as it was before the back-pressure clause (Spec/PipeSpec.v trace_ok_loose: per stage
+   source order and alternation, begin(i,k) after end(i-1,k)) is complete but not exact: for two
+   stages it accepts  b(1,0) e(1,0) b(1,1) e(1,1) b(1,2)  which no run emits for any number of items, any
+   oracle and any schedule - the channels are unbuffered, so stage 1 cannot take its third item
+   before stage 2 has taken (begun and ended) its first.  trace_ok now has the clause. *)
+Theorem trace_ok_loose_exact_refuted : exists n tr,
+  trace_ok_loose n tr = true /\
+  forall m fails sched, trace (run n m fails sched init) <> tr.
+Proof. exists 2, loose_witness. exact trace_ok_loose_not_exact. Qed.
+Print Assumptions trace_ok_loose_exact_refuted.
 
 (* ------------------------------------------------------------------------------------------
    The loader.  [rank] witnesses that the include graph is acyclic. *)
@@ -245,6 +272,17 @@ Example C19_example_failure :
   let st := run 3 4 (fun i k => (i =? 2) && (k =? 1)) (rounds 3 40) init in
   terminal 3 st = true /\ outcome_of st = Failure (EFail 2 1) /\ trace_ok 3 (trace st) = true.
 Proof. vm_compute. repeat split. Qed.
+
+(* an accepted event list with a failing stage function that fits its instance *)
+Example C19_example_respects :
+  let fails := fun i k => (i =? 2) && (k =? 1) in
+  let st := run 3 4 fails (rounds 3 40) init in
+  trace_ok 3 (trace st) = true /\ respects 3 4 fails (trace st) /\
+  trace_ok_loose 2 loose_witness = true /\ trace_ok 2 loose_witness = false.
+Proof.
+  split; [vm_compute; reflexivity|]. split; [|split; vm_compute; reflexivity].
+  apply (proj1 (C19_trace_exact 3 4 _ _)). eexists. reflexivity.
+Qed.
 
 Example C19_example_loader :
   let inc := fun f => match f with 0 => [1; 2] | 1 => [3] | _ => [] end in
